@@ -71,16 +71,11 @@ PRELUDE = ("let U := {| task_of := fun i => nth i [%s] 9; call_of := fun i => nt
            % ("; ".join(map(str, TASK_OF)), "; ".join(map(str, CALL_OF)),
               "; ".join("[" + "; ".join(f"({k}, {v})" for k, v in a) + "]" for a in ARGS_OF),
               D.PURGE_UNITS, D.PENDING_UNITS, D.DEAD_UNITS))
-GUARD_KEYS = {
-    1: "mem-register-overwrites-existing-invocation",
-    2: "mem-retry-counter-created-for-unknown-id",
-    3: "mem-blocking-keyerror-for-unregistered-awaited-id",
-    4: "mem-release-of-live-invocation-forgets-its-own-waits",
-    5: "mem-filter-by-status-keyerror-for-unknown-id",
-    6: "mem-state-backend-purge-keeps-workflow-data-and-runner-contexts",
-}
-SVC_KEY = "mem-service-window-kept-for-runner-without-heartbeat"
-AUTOPURGE_KEY = "mem-auto-purge-fails-after-state-backend-purge"
+# the one defect left in /repo: MemBlockingControl.release_waiters(x) also forgets what x itself waits for.
+# Guard class 4 = release of a live invocation, class 1 = its other face (finished while waiting, auto-purged, registered
+# again): only there may the in-memory backend differ from the reference, and only the way the index model predicts.
+RELEASE_KEY = "mem-release-of-live-invocation-forgets-its-own-waits"
+FINDING_CLASSES = (1, 4)
 IMPL_ONLY = ("svc", "q_svc")
 
 
@@ -166,8 +161,8 @@ def coq_expr(case) -> str:
     ops = "[" + "; ".join(coq_op(o) for o in flat) + "]"
     return (PRELUDE + f"let ops := {ops} in "
             "[map render (idx_run U C doc_transition idx0 ops); map render (rel_run U C doc_transition rel0 ops); "
-            "[[ (let (p, k) := first_bad U C doc_transition 0 0 [] rel0 ops in [Z.of_nat p; Z.of_nat k]); "
-            "(let (p, k) := first_bad U C doc_transition 7 0 [] rel0 ops in [Z.of_nat p; Z.of_nat k]) ]]]")
+            "[[ (let (p, k) := first_bad U C doc_transition [] 0 [] rel0 ops in [Z.of_nat p; Z.of_nat k]); "
+            "(let (p, k) := first_bad U C doc_transition [3; 7] 0 [] rel0 ops in [Z.of_nat p; Z.of_nat k]) ]]]")
 
 
 def norm_model(op, v):
@@ -246,62 +241,69 @@ def gen_query(rng, ids):
 
 
 def gen_guarded(rng, n):
-    """stays (almost always) inside the theorem's domain: fresh registrations only, retries / filters / awaited ids among
-    registered invocations for which no final status has been requested yet, no direct release, no state-backend purge"""
+    """stays (almost always) inside the theorem's domain: registrations of fresh or still-live invocations only (never of one
+    that may have been auto-purged), nobody waits for itself, no direct release; unknown ids, re-registration and
+    state-backend purges are all allowed"""
     ops, ever, live, owner = [], [], [], {}
+    anyslot = lambda: rng.randrange(D.NSLOT)  # noqa: E731
     for _ in range(n):
         r = rng.random()
         fresh = [i for i in range(D.NSLOT) if i not in ever]
-        if (r < 0.10 or not ever) and fresh:
-            ids = rng.sample(fresh, rng.randint(1, min(2, len(fresh))))
+        if (r < 0.10 or not ever) and (fresh or live):
+            pool = fresh + live
+            ids = rng.sample(pool, rng.randint(1, min(3, len(pool))))
             ops.append(("reg", ids))
-            ever += ids
-            live += ids
+            for i in ids:
+                if i not in ever:
+                    ever.append(i)
+                    live.append(i)
         elif r < 0.40 and ever:
-            i = rng.choice(ever)
+            i = rng.choice(ever) if rng.random() < 0.95 else anyslot()
             if rng.random() < 0.12:
                 st = rng.choice(FINALS)
-                if i in live:
-                    live.remove(i)
             else:
                 st = rng.choice(NONFINAL_WALK) if rng.random() < 0.85 else rng.choice(ST)
-                if st in FINALS and i in live:
-                    live.remove(i)
+            if st in FINALS and i in live:
+                live.remove(i)
             rid = owner.get(i) if (i in owner and rng.random() < 0.8) else rng.choice(D.RUNNERS[:2])
             if st == "PENDING":
                 owner[i] = rid
             ops.append(("set", i, st, rid))
-        elif r < 0.46 and ever:
-            ops.append(("idx", rng.choice(ever)))
-        elif r < 0.49 and live:
-            ops.append(("incr", rng.choice(live)))
+        elif r < 0.46:
+            ops.append(("idx", anyslot()))
+        elif r < 0.50:
+            ops.append(("incr", anyslot()))
         elif r < 0.56:
             ops.append(("hb", rng.sample(D.RUNNERS, rng.randint(0, 2)), rng.random() < 0.5))
         elif r < 0.68:
             ops.append(("tick", rng.choice(TICKS)))
         elif r < 0.72:
             ops.append(("autopurge",))
-        elif r < 0.79 and len(live) >= 2:
-            w = rng.choice(range(D.NSLOT))
-            xs = [x for x in rng.sample(live, rng.randint(1, 2)) if x != w]
+        elif r < 0.79:
+            w = anyslot()
+            xs = [x for x in rng.sample(range(D.NSLOT), rng.randint(1, 2)) if x != w]
             ops.append(("wait", w, xs))
         elif r < 0.83:
-            ops.append(("route", rng.randrange(D.NSLOT)))
+            ops.append(("route", anyslot()))
         elif r < 0.87:
             ops.append(("retrieve",))
         elif r < 0.89:
-            ops.append(("res", rng.randrange(D.NSLOT), rng.randint(0, 3)))
+            ops.append(("res", anyslot(), rng.randint(0, 3)))
         elif r < 0.91:
-            ops.append(("exc", rng.randrange(D.NSLOT), rng.randint(0, 1)))
+            ops.append(("exc", anyslot(), rng.randint(0, 1)))
         elif r < 0.93:
             ops.append(("wf", rng.choice(D.WFKEYS), rng.randint(0, 3)))
         elif r < 0.935:
             ops.append(("bpurge",))
         elif r < 0.94:
             ops.append(("opurge",))
-            live = []
+            ever, live = [], []
+        elif r < 0.945:
+            ops.append(("sbpurge",))
+        elif r < 0.955:
+            ops += [("svc", rng.choice(D.RUNNERS)), ("q_svc",)]
         else:
-            ops.append(gen_query(rng, live))
+            ops.append(gen_query(rng, list(range(D.NSLOT))))
     return ops
 
 
@@ -325,7 +327,7 @@ def gen_wild(rng, n):
             ops.append(("tick", rng.choice(TICKS)))
         elif r < 0.67:
             ops.append(("autopurge",))
-        elif r < 0.74:
+        elif r < 0.765:
             ops.append(("wait", k(), rng.sample(range(D.NSLOT), rng.randint(0, 2))))
         elif r < 0.78:
             ops.append(("release", k()))
@@ -354,17 +356,23 @@ EXH_WIDE = EXH_CORE + [("idx", 0), ("reg", [2]), ("set", 1, "PENDING", "r2"), ("
                        ("tick", D.DEAD_UNITS + 1), ("route", 0), ("retrieve",), ("res", 0, 1),
                        ("wf", 0, 2), ("opurge",), ("q_filter", [0, 1], ["PENDING", "SUCCESS"]),
                        ("q_existing", 0, [(0, 1)], ["REGISTERED", "PENDING"])]
-# one witness per class outside the theorem's domain (the same sequences as the `..._refuted` theorems of Props/C16.v)
+# the two faces of the remaining known finding (the same sequences as the `..._refuted` theorems of Props/C16.v)
 WITNESSES = {
-    1: [("reg", [0]), ("set", 0, "PENDING", "r1"), ("incr", 0), ("tick", 1), ("reg", [0])],
-    2: [("incr", 0)],
-    3: [("reg", [1]), ("wait", 1, [0])],
     4: [("reg", [0, 1, 2]), ("wait", 0, [1]), ("release", 0), ("wait", 2, [0])],
-    5: [("reg", [0]), ("q_filter", [0, 1], ["REGISTERED"])],
-    6: [("reg", [0]), ("set", 0, "PENDING", "r1"), ("wf", 0, 1), ("sbpurge",)],
-    8: [("reg", [0]), ("set", 0, "CONCURRENCY_CONTROLLED_FINAL", "zz"), ("sbpurge",), ("tick", D.PURGE_UNITS), ("autopurge",)],
-    9: [("svc", "r1"), ("tick", 3), ("hb", ["r1"], False), ("q_svc",)],      # implementation-vs-implementation only
+    1: [("reg", [0, 1, 2]), ("wait", 0, [1]), ("set", 0, "CONCURRENCY_CONTROLLED_FINAL", "zz"), ("tick", D.PURGE_UNITS),
+        ("autopurge",), ("reg", [0]), ("wait", 2, [0])],
 }
+# the witnesses of the seven REPAIRED divergences: kept as regression cases, compared strictly
+REGRESSIONS = [
+    [("reg", [0]), ("set", 0, "PENDING", "r1"), ("incr", 0), ("tick", 1), ("reg", [0])],                 # 34be5dc
+    [("incr", 0)],                                                                                        # e9d135c
+    [("reg", [1]), ("wait", 1, [0])],                                                                     # d1f591a
+    [("reg", [0]), ("q_filter", [0, 1], ["REGISTERED"])],                                                 # 4e5e0b4
+    [("reg", [0]), ("set", 0, "PENDING", "r1"), ("wf", 0, 1), ("sbpurge",)],                              # 481f807
+    [("reg", [0]), ("set", 0, "CONCURRENCY_CONTROLLED_FINAL", "zz"), ("sbpurge",), ("tick", D.PURGE_UNITS), ("autopurge",),
+     ("reg", [0])],                                                                                       # 69caea5
+    [("svc", "r1"), ("q_svc",), ("tick", 3), ("hb", ["r1"], False), ("q_svc",)],                          # 4351c43
+]
 
 
 # hand-written scenarios for corners the short exhaustive part cannot reach (several filters combined, boundary instants)
@@ -386,6 +394,8 @@ def gen_cases(ctx: Ctx):
     cases = []
     for cls, w in WITNESSES.items():
         cases.append(("witness", w))
+    for w in REGRESSIONS:
+        cases.append(("regression", w))
     for sc in SCENARIOS:
         cases.append(("scenario", sc))
     for n in (1, 2):
@@ -421,26 +431,31 @@ def same(op, impl, model):
 
 
 def check_case(ctx: Ctx, kind, case, mem, sql, model_val, stats):
+    """STRICT: SQLite == reference model and in-memory == reference model on every answer.  The only tolerated difference:
+    after the sequence has met guard class 1 / 4 (the remaining known finding) the in-memory backend may differ from the
+    reference exactly as the index model (= transcription of the current code) predicts -> KNOWN-FINDING."""
     flat, owner = expand(case)
     I, R, (pos, cls0), (fpos, cls) = model_val[0], model_val[1], model_val[2][0][0], model_val[2][0][1]
     assert len(I) == len(R) == len(flat) == len(mem) == len(sql), (len(I), len(R), len(flat), len(mem), len(sql))
     stats["steps"] += len(flat)
-    stats["inside_domain" if cls0 == 0 else ("purge_loop_outside_proof" if cls == 0 else "outside_domain")] += 1
+    stats["inside_domain" if cls0 == 0 else {1: "leaves_domain_reregister_purged", 3: "leaves_domain_self_wait",
+                                              4: "leaves_domain_release_live", 7: "leaves_domain_purge_loop"}[cls0]] += 1
     done_mem = done_sql = False
-    idx_valid = True          # False once the real in-memory backend behaved better than the transcription of the quirky code
+    idx_valid = True          # False once the real in-memory backend followed the reference where the index model has the quirk
     for j, op in enumerate(flat):
         in_domain = j < pos
+        finding_zone = j >= fpos and cls in FINDING_CLASSES
         if op[0] in IMPL_ONLY:
             if mem[j] != sql[j] and not done_mem:
-                stats["finding_" + SVC_KEY] = stats.get("finding_" + SVC_KEY, 0) + 1
-                ctx.violation(SVC_KEY, f"record_atomic_service_execution for a runner that never sent a heartbeat: in-memory {mem[j]} vs SQLite {sql[j]}",
-                              {"ops": case[:owner[j] + 1], "probe": list(op), "backend": "mem", "observed": mem[j], "expected": sql[j]})
                 done_mem = True
+                ctx.violation(f"mem-vs-sqlite:{op[0]}", f"record_atomic_service_execution: in-memory {mem[j]} vs SQLite {sql[j]} after {case[owner[j]]}",
+                              {"ops": case[:owner[j] + 1], "probe": list(op), "backend": "mem", "observed": mem[j], "expected": sql[j]})
             continue
         i_v, r_v = norm_model(op, I[j]), norm_model(op, R[j])
-        if in_domain and i_v != r_v:
-            ctx.violation("models-disagree-inside-domain", f"index and relational model disagree inside the theorem's domain at {op}",
-                          {"ops": case[:owner[j] + 1], "probe": list(op), "index": i_v, "relational": r_v})
+        if i_v != r_v and not finding_zone:
+            ctx.violation("models-disagree" + ("-inside-domain" if in_domain else ""),
+                          f"index and relational model disagree at {op} where no finding is known",
+                          {"ops": case[:owner[j] + 1], "probe": list(op), "backend": "mem", "index": i_v, "expected": r_v})
         if not done_sql and not same(op, sql[j], r_v):
             done_sql = True
             ctx.violation(f"sqlite:{case[owner[j]][0]}:{op[0]}",
@@ -450,35 +465,23 @@ def check_case(ctx: Ctx, kind, case, mem, sql, model_val, stats):
             continue
         if not same(op, mem[j], r_v):
             done_mem = True
-            predicted = idx_valid and same(op, mem[j], i_v)
-            if op[0] == "autopurge" and mem[j] == [[1, 4]] and same(op, mem[j], i_v) and j >= fpos and cls == 6:
-                stats["finding_" + AUTOPURGE_KEY] = stats.get("finding_" + AUTOPURGE_KEY, 0) + 1
-                ctx.violation(AUTOPURGE_KEY,
-                              "auto_purge after a state-backend purge: the in-memory clean-up loads the invocation from the state backend and raises "
-                              f"InvocationNotFoundError (the due invocation stays half removed); SQLite purges without it. {op} gives {mem[j]}, reference {r_v}",
-                              {"ops": case[:owner[j] + 1], "probe": list(op), "backend": "mem", "observed": mem[j], "expected": r_v, "class": cls})
-            elif predicted and j >= fpos and cls in GUARD_KEYS:
-                key = GUARD_KEYS[cls]
-                stats["finding_" + key] = stats.get("finding_" + key, 0) + 1
-                ctx.violation(key,
+            if finding_zone and idx_valid and same(op, mem[j], i_v):
+                stats["finding_reproduced"] += 1
+                ctx.violation(RELEASE_KEY,
                               f"in-memory backend leaves the contract (SQLite and the reference model agree): after {case[owner[j]]}, {op} gives {mem[j]}, "
-                              f"reference {r_v}; first operation outside the domain: {flat[fpos]}",
+                              f"reference {r_v}; first operation of guard class {cls}: {flat[fpos]}",
                               {"ops": case[:owner[j] + 1], "probe": list(op), "backend": "mem", "observed": mem[j], "expected": r_v,
                                "class": cls})
             else:
                 ctx.violation(f"mem:{case[owner[j]][0]}:{op[0]}",
-                              f"in-memory backend differs from the reference model{' INSIDE the theorem domain' if in_domain else ''} and "
-                              f"{'as' if predicted else 'not as'} the index model predicts: after {case[owner[j]]}, {op} gives {mem[j]}, "
-                              f"reference {r_v}, index model {i_v}",
+                              f"in-memory backend differs from the reference model{' INSIDE the theorem domain' if in_domain else ''}: "
+                              f"after {case[owner[j]]}, {op} gives {mem[j]}, reference {r_v}, index model {i_v}",
                               {"ops": case[:owner[j] + 1], "probe": list(op), "backend": "mem", "observed": mem[j], "expected": r_v,
                                "index_model": i_v})
         elif idx_valid and not same(op, mem[j], i_v):
-            # the implementation follows the contract where the transcription of the current code does not: a repaired tree
+            # only possible in the finding zone (elsewhere i_v == r_v was demanded above): the tree has the release repair
             idx_valid = False
-            stats["mem_follows_reference_where_index_model_has_the_quirk"] = stats.get("mem_follows_reference_where_index_model_has_the_quirk", 0) + 1
-            if in_domain:
-                ctx.violation("index-model-wrong-inside-domain", f"index model mispredicts the in-memory backend inside the domain at {op}",
-                              {"ops": case[:owner[j] + 1], "probe": list(op), "backend": "mem", "observed": mem[j], "index_model": i_v})
+            stats["mem_follows_reference_in_finding_zone"] += 1
     return
 
 
@@ -517,7 +520,9 @@ def main(ctx: Ctx) -> int:
         ctx.log("implementations done")
     finally:
         world.rm_scratch(scratch)
-    stats: dict = {"steps": 0, "inside_domain": 0, "outside_domain": 0, "purge_loop_outside_proof": 0}
+    stats: dict = {"steps": 0, "inside_domain": 0, "leaves_domain_reregister_purged": 0, "leaves_domain_self_wait": 0,
+                   "leaves_domain_release_live": 0, "leaves_domain_purge_loop": 0, "finding_reproduced": 0,
+                   "mem_follows_reference_in_finding_zone": 0}
     kinds: dict = {}
     for n, ((kind, case), val) in enumerate(zip(cases, vals)):
         mem, sql = impl_res[n]
